@@ -2,8 +2,9 @@ import Sudachi.Proofs.Split
 /-!
 # C09 — Modes A and B refine mode C with exactly the dictionary's split units
 
-Model: `Model/Split.lean` (`split_path`, `NodeSplitIterator::next`, `MorphemeList::split_into`,
-`set_mode`/`set_subset`/`normalize`, the early-exit word-info reader, `update_dict_id`).
+Model: `Model/Split.lean` (`resolve_best_path` incl. the byte range it computes from `mod_c2b`,
+`split_path`, `NodeSplitIterator::next`, `MorphemeList::split_into`, `set_mode`/`set_subset`/`normalize`,
+the early-exit word-info reader, `update_dict_id`, `Morpheme::begin/end` and `Morpheme::surface`).
 
 A path is a list of `Node`s with character range `cb..ce` and byte range `bb..be` in the rewritten
 text.  `Linked p c b c' b'` = the nodes start at `(c, b)`, abut, and end at `(c', b')`; this is the
@@ -209,15 +210,10 @@ theorem restamp (lex : Lex) (id : Nat) (s : Subset) (l : List Entry) (e : Entry)
   · intro h; simp [h]
   · intro h; simp [h]
 
-/-- Full statement (NOT proved): for two tokenizer histories whose subsets both contain the split
-field of mode `m`, `split` yields sub-tokens with the same ids and ranges (`Node.core`) — so the
-on-demand split of a C list made with one subset equals the direct tokenisation made with another.
-Proved here: the two inputs of the iterator that depend on the subset — the unit's key length and
-the unit list of the mode — are the same under both subsets, for every existing word.  Missing: the
-induction over `splitGo` lifting this to the whole sub-token list.  The generated cases always use
-different histories for the direct tokenizer and the C list, so the full statement is exercised by
-the oracle and the correspondence on every run. -/
-theorem subset_irrelevant_partial (lex : Lex) (id : Nat) (s s' : Subset) (l : List Entry) (e : Entry)
+/-- the two inputs of the iterator that depend on the subset — the unit's key length and the unit
+list of the mode — are the same under any two subsets that hold the split field, for every existing
+word (the step lemma of `subset_irrelevant`, kept because the oracle's `winfo` stream checks exactly this) -/
+theorem subset_irrelevant_inputs (lex : Lex) (id : Nat) (s s' : Subset) (l : List Entry) (e : Entry)
     (hd : dicOf id < 16) (hl : lex[dicOf id]? = some l) (he : l[wordOf id]? = some e) :
     (SPLIT_A ∈ s → SPLIT_A ∈ s' → ∃ i i', getWordInfoSubset lex id s = .ok i ∧
       getWordInfoSubset lex id s' = .ok i' ∧ i.hwl = i'.hwl ∧ i.a = i'.a) ∧
@@ -232,6 +228,134 @@ theorem subset_irrelevant_partial (lex : Lex) (id : Nat) (s s' : Subset) (l : Li
     obtain ⟨i, hi, h1, _, h3⟩ := restamp lex id s l e hd hl he (Or.inr h)
     obtain ⟨i', hi', h1', _, h3'⟩ := restamp lex id s' l e hd hl he (Or.inr h')
     exact ⟨i, i', hi, hi', by rw [h1, h1'], by rw [h3 h, h3' h']⟩
+
+/-- **The other subset bits do not matter (FULL; formerly `subset_irrelevant_partial`).**  For every
+lexicon set (well-formed or not), variant of the iterator, offset tables and path found by the
+lattice search (word ids are `u32`: 4-bit dictionary ids): two tokenizers whose subsets both hold the
+split field of mode `m` (every history does: `history_loads_split_field`) produce the same outcome
+— same panic, or the same tokens with the same ids, character ranges and byte ranges
+(`Node.core`).  The induction over `NodeSplitIterator::next` that the partial version lacked is
+`Split.splitGo_agree`; the sub-tokens' own word infos do differ (each is loaded with its subset). -/
+theorem subset_irrelevant (v : Variant) (lex : Lex) (b2c c2b : List Nat) (s s' : Subset) (m : Mode)
+    (raws : List RawNode) (hs : ∀ x ∈ modeSubset m, x ∈ s) (hs' : ∀ x ∈ modeSubset m, x ∈ s')
+    (hd : ∀ r ∈ raws, dicOf r.wid < 16) :
+    directCore v lex b2c c2b s m raws = directCore v lex b2c c2b s' m raws := by
+  unfold directCore
+  rcases resolvePath_agree lex c2b s s' m hs hs' raws hd with ⟨w, h1, h2⟩ | ⟨p, p', h1, h2, hp⟩
+  · simp [h1, h2]
+  · simp only [h1, h2]
+    exact splitPath_agree v lex b2c c2b s s' m hs hs' p p' hp
+
+/-- **Clause 3 across subsets: the list the morpheme lives in may have been made with another subset
+than the direct tokenizer.**  A path node resolved by a mode-C tokenizer with subset `s'` and split on
+demand (`split_into` reads the units with the LIST's subset `s'`, copied by `collect_results`) gives
+the same sub-tokens — ids and ranges — as the loop body of `split_path` in a direct tokenizer with
+subset `s`, whenever both subsets hold the split field of the mode and the word declares ≥ 2 units.
+(A list made WITHOUT the split field has nothing loaded: `ondemand_none` applies — the documented
+opt-out "you need to load splits if you want to use split".) -/
+theorem ondemand_other_subset (v : Variant) (lex : Lex) (b2c c2b : List Nat) (s s' : Subset) (m : Mode)
+    (r : RawNode) (n n' : Node) (hs : ∀ x ∈ modeSubset m, x ∈ s) (hs' : ∀ x ∈ modeSubset m, x ∈ s')
+    (hd : dicOf r.wid < 16) (hn : resolveNode lex s c2b r = .ok n) (hn' : resolveNode lex s' c2b r = .ok n')
+    (h2 : 2 ≤ numSplits n m) :
+    2 ≤ numSplits n' m ∧
+    coreOut (expand ⟨v, lex, s, b2c, c2b⟩ m n) =
+      coreOut (match splitInto ⟨v, lex, s', b2c, c2b⟩ m n' with
+        | .ok (_, us) => .ok us | .err k => .err k | .panic w => .panic w) := by
+  rcases resolveNode_agree lex c2b s s' m hs hs' r hd with ⟨w, h1, _⟩ | ⟨a, a', h1, h1', ha⟩
+  · rw [hn] at h1; cases h1
+  · rw [hn] at h1; rw [hn'] at h1'
+    cases h1; cases h1'
+    have hnum : numSplits n' m = numSplits n m := by
+      simp only [numSplits, splitsOf_eq, ha.2.2.2.2.2.1]
+    refine ⟨by omega, ?_⟩
+    rw [expand_agree v lex b2c c2b s s' m hs hs' n n' ha]
+    have hgt : ¬ numSplits n' m ≤ 1 := by omega
+    have hne : numSplits n' m ≠ 0 := by omega
+    simp only [expand, hgt, if_false, splitInto, hne]
+    cases split ⟨v, lex, s', b2c, c2b⟩ n' m <;> rfl
+
+/-- **The reviewer's question, settled: `new(C); set_subset(S); set_mode(M)` against `new(M); set_subset(S)`.**
+`set_subset` adds only the flag of the CURRENT mode and normalises; a later `set_mode` ORs the new
+mode's flag without re-normalising.  So after the first history the HEAD_WORD_LENGTH bit may be
+missing where the second history has it (`set_mode_does_not_normalize`, e.g. `S = {SURFACE}`:
+`{SURFACE, SPLIT_A}` vs `{SURFACE, HEAD_WORD_LENGTH, SPLIT_A}`) — and that is the ONLY difference,
+and it is invisible: for every request `S` and every splitting mode `M` the two tokenizers are in the
+same mode, their subsets agree on every other bit, the reader loads exactly the same fields
+(`readFields`: the key length is a light field, written whenever the reader walks past it to a split
+list), and the whole analysis — `resolve_best_path` + `split_path`, outcome, tokens, ranges AND the
+loaded word infos — is identical for every lexicon set, iterator variant, offset table and path.
+Not a defect of C09/C10/C11. -/
+theorem set_subset_then_set_mode_eq_new (S : Subset) (M : Mode) (hM : M ≠ Mode.C) :
+    let t1 := (runOps [.new .C, .sub S, .md M] (create .C) []).1
+    let t2 := (runOps [.new M, .sub S] (create .C) []).1
+    t1.mode = M ∧ t2.mode = M ∧
+    (∀ x, x ≠ HEAD_WORD_LENGTH → (x ∈ t1.subset ↔ x ∈ t2.subset)) ∧
+    HEAD_WORD_LENGTH ∈ t2.subset ∧
+    readFields t1.subset = readFields t2.subset ∧
+    (∀ lex id, getWordInfoSubset lex id t1.subset = getWordInfoSubset lex id t2.subset) ∧
+    (∀ v lex b2c c2b raws,
+      (match resolvePath lex t1.subset c2b raws with
+        | .ok p => splitPath ⟨v, lex, t1.subset, b2c, c2b⟩ t1.mode p | .err k => .err k | .panic w => .panic w) =
+      (match resolvePath lex t2.subset c2b raws with
+        | .ok p => splitPath ⟨v, lex, t2.subset, b2c, c2b⟩ t2.mode p | .err k => .err k | .panic w => .panic w)) := by
+  intro t1 t2
+  have e1 : t1.subset = normalize (S ++ []) ++ [] ++ modeSubset M := rfl
+  have e2 : t2.subset = normalize (S ++ modeSubset M) ++ modeSubset M := rfl
+  have m1 : t1.mode = M := rfl
+  have m2 : t2.mode = M := rfl
+  have hms : ∀ x ∈ modeSubset M, x = SPLIT_A ∨ x = SPLIT_B := by
+    intro x hx; cases M <;> simp [modeSubset] at hx <;> simp [hx]
+  have hagree : ∀ x, x ≠ HEAD_WORD_LENGTH → (x ∈ t1.subset ↔ x ∈ t2.subset) := by
+    intro x hx
+    rw [e1, e2]
+    simp only [List.append_nil, List.mem_append, mem_normalize]
+    constructor
+    · rintro (h | h)
+      · rcases h with h | ⟨rfl, h⟩ | ⟨rfl, _⟩
+        · left; left; left; exact h
+        · left; right; left
+          exact ⟨rfl, by rcases h with h | h | h <;> simp [h]⟩
+        · exact absurd rfl hx
+      · right; exact h
+    · rintro (h | h)
+      · rcases h with (h | h) | ⟨rfl, h⟩ | ⟨rfl, _⟩
+        · left; left; exact h
+        · right; exact h
+        · left; right; left
+          refine ⟨rfl, ?_⟩
+          rcases h with (h | h) | (h | h) | (h | h)
+          · exact Or.inl h
+          · rcases hms _ h with h' | h' <;> simp [READING_FORM, SPLIT_A, SPLIT_B] at h'
+          · exact Or.inr (Or.inl h)
+          · rcases hms _ h with h' | h' <;> simp [NORMALIZED_FORM, SPLIT_A, SPLIT_B] at h'
+          · exact Or.inr (Or.inr h)
+          · rcases hms _ h with h' | h' <;> simp [DIC_FORM_WORD_ID, SPLIT_A, SPLIT_B] at h'
+        · exact absurd rfl hx
+      · right; exact h
+  obtain ⟨g, hg, hg'⟩ : ∃ g, g ∈ modeSubset M ∧ (g = SPLIT_A ∨ g = SPLIT_B) := by
+    cases M
+    · exact ⟨SPLIT_A, by simp [modeSubset], Or.inl rfl⟩
+    · exact ⟨SPLIT_B, by simp [modeSubset], Or.inr rfl⟩
+    · exact absurd rfl hM
+  have hg1 : g ∈ t1.subset := by rw [e1]; exact List.mem_append_right _ hg
+  have hg0 : g ≠ SURFACE := by rcases hg' with rfl | rfl <;> decide
+  have hgh : g ≠ HEAD_WORD_LENGTH := by rcases hg' with rfl | rfl <;> decide
+  have hgw : ∀ lex id, getWordInfoSubset lex id t1.subset = getWordInfoSubset lex id t2.subset :=
+    fun lex id => gwis_hwl_bit_irrelevant lex id _ _ hagree g hg1 hg0 hgh
+  refine ⟨m1, m2, hagree, ?_, readFields_hwl_bit_irrelevant _ _ hagree g hg1 hg0 hgh, hgw, ?_⟩
+  · rw [e2]
+    apply List.mem_append_left
+    rw [mem_normalize]
+    refine Or.inr (Or.inr ⟨rfl, ?_⟩)
+    rcases hg' with rfl | rfl
+    · exact Or.inl (List.mem_append_right _ hg)
+    · exact Or.inr (List.mem_append_right _ hg)
+  · intro v lex b2c c2b raws
+    rw [m1, m2, resolvePath_congr lex c2b _ _ (hgw lex) raws]
+    cases resolvePath lex t2.subset c2b raws with
+    | err k => rfl
+    | panic w => rfl
+    | ok p => exact splitPath_congr v lex b2c c2b _ _ (hgw lex) M p
 
 /-- what re-stamping does to one reference: system references stay, user references get the
 owner's dictionary id and keep their word number -/
@@ -266,6 +390,168 @@ theorem split_loads_key_length (s : Subset) (h : SPLIT_A ∈ s ∨ SPLIT_B ∈ s
 `new(C); set_subset({POS_ID}); set_mode(A)` ends with `{POS_ID, SPLIT_A}`. -/
 theorem set_mode_does_not_normalize :
     toBits (runOps [.new .C, .sub [POS_ID], .md .A] (create .C) []).1.subset = 68 := by decide
+
+/-- **Clause 1 at full strength for the code that exists (repaired iterator): A/B tokenisation always
+returns, and refines C — no "if `split_path` returns".**  For EVERY lexicon set whose stored
+references name existing words (`LexClosed`: what the builder's `validate_entries` enforces;
+well-formedness of the declarations is NOT assumed — unit keys of any length, in any order), every
+subset, every buffer whose tables have the range facts of a built buffer (`TablesRange`), every path
+of nodes inside the text whose word ids exist or are synthesised (`RawOk`): `resolve_best_path`
+succeeds, `split_path` succeeds — `NodeSplitIterator::next` never indexes out of range and never
+fails to read a unit — and every begin/end of a mode-C node is a begin/end of an A/B node, nodes
+declaring ≤ 1 unit are unchanged, a linked chain stays a linked chain. -/
+theorem boundaries_refine_total (lex : Lex) (s : Subset) (b2c c2b : List Nat) (nb : Nat) (m : Mode)
+    (raws : List RawNode) (hc : LexClosed lex) (hr : TablesRange b2c c2b nb)
+    (hraw : ∀ r ∈ raws, RawOk lex c2b nb r) :
+    ∃ path out, resolvePath lex s c2b raws = .ok path ∧
+      path.map (fun n => (n.cb, n.ce, n.wid)) = raws.map (fun r => (r.cb, r.ce, r.wid)) ∧
+      splitPath ⟨.d6fix, lex, s, b2c, c2b⟩ m path = .ok out ∧
+      (∀ n ∈ path, n.cb ∈ out.map (·.cb) ∧ n.bb ∈ out.map (·.bb) ∧ n.ce ∈ out.map (·.ce) ∧ n.be ∈ out.map (·.be)) ∧
+      (∀ n ∈ path, numSplits n m ≤ 1 → n ∈ out) ∧
+      (∀ c b c' b', Linked path c b c' b' → Linked out c b c' b') := by
+  obtain ⟨path, hp, hok, hmap⟩ := resolvePath_ok lex hc s c2b nb raws hraw
+  have : ∃ out, splitPath ⟨.d6fix, lex, s, b2c, c2b⟩ m path = .ok out := by
+    unfold splitPath
+    by_cases hm : m = Mode.C
+    · exact ⟨path, by simp [hm]⟩
+    · simp only [hm, if_false]
+      exact splitPathGo_d6fix_ok ⟨.d6fix, lex, s, b2c, c2b⟩ rfl hc nb hr m path hok
+  obtain ⟨out, ho⟩ := this
+  obtain ⟨h1, h2⟩ := boundaries_refine _ m path out ho
+  exact ⟨path, out, hp, hmap, ho, h1, h2, fun c b c' b' hl => chain_preserved _ m path out c b c' b' ho hl⟩
+
+/-- **`resolve_best_path` computes the byte range from the character range** (`to_curr_byte_idx`), so the
+field `bytes` of `SplitsConcat` is not an assumption about path nodes: under `C2bOk` (the table
+`InputBuffer::build` makes) every node of a resolved path has `bb = pre w cs cb`, `be = pre w cs ce`. -/
+theorem resolved_byte_range (lex : Lex) (s : Subset) (w : Nat → Nat) (cs : List Nat) (c2b : List Nat)
+    (hc : C2bOk w cs c2b) (hsz : pre w cs cs.length < 65536) (r : RawNode) (n : Node)
+    (hr : r.cb ≤ cs.length ∧ r.ce ≤ cs.length) (h : resolveNode lex s c2b r = .ok n) :
+    n.cb = r.cb ∧ n.ce = r.ce ∧ n.wid = r.wid ∧ n.bb = pre w cs n.cb ∧ n.be = pre w cs n.ce := by
+  simp only [resolveNode] at h
+  generalize (if (r.syn || isOov r.wid) = true then Outcome.ok Info.empty else getWordInfoSubset lex r.wid s) = io at h
+  cases io with
+  | err k => simp at h
+  | panic w => simp at h
+  | ok i =>
+    simp only [currByteIdx, hc _ hr.1, hc _ hr.2, Outcome.ok.injEq] at h
+    subst h
+    have l1 : pre w cs r.cb < 65536 := Nat.lt_of_le_of_lt (pre_le_total w cs _ hr.1) hsz
+    have l2 : pre w cs r.ce < 65536 := Nat.lt_of_le_of_lt (pre_le_total w cs _ hr.2) hsz
+    exact ⟨rfl, rfl, rfl, asU16_id _ l1, asU16_id _ l2⟩
+
+/-- **The character route and the byte route to the original text agree** for every token of the
+repaired code, all dictionaries: each node of the A/B path begins and ends on a character start
+(`mod_c2b[cb] = bb`, `mod_c2b[ce] = be` — path nodes by `resolve_best_path`, non-last units by the
+snap of the repaired iterator, last units by inheritance), hence whenever `surface()` returns, its
+byte range in the original text is `begin()..end()`. -/
+theorem routes_agree (lex : Lex) (s : Subset) (b2c c2b m2o : List Nat) (m : Mode) (raws : List RawNode)
+    (path out : List Node) (hb : Small b2c) (hc : Small c2b)
+    (hp : resolvePath lex s c2b raws = .ok path) (ho : splitPath ⟨.d6fix, lex, s, b2c, c2b⟩ m path = .ok out) :
+    ∀ u ∈ out, OnChar c2b u ∧
+      ∀ ob oe, surfaceRange b2c c2b m2o u.bb u.be = .ok (ob, oe) →
+        origIdx c2b m2o u.cb = .ok ob ∧ origIdx c2b m2o u.ce = .ok oe := by
+  have hpath := resolvePath_onChar lex s c2b hc raws path hp
+  have hon : ∀ u ∈ out, OnChar c2b u := by
+    unfold splitPath at ho
+    by_cases hm : m = Mode.C
+    · simp only [hm, if_true] at ho; cases ho; exact hpath
+    · simp only [hm, if_false] at ho
+      intro u hu
+      obtain ⟨n, hn, us, hus, huu⟩ := splitPathGo_mem _ m path out u ho hu
+      unfold expand at hus
+      by_cases hle : numSplits n m ≤ 1
+      · simp only [hle, if_true] at hus
+        cases hus
+        simp only [List.mem_singleton] at huu
+        subst huu
+        exact hpath _ hn
+      · simp only [hle, if_false] at hus
+        obtain ⟨h1, h2⟩ := hpath n hn
+        cases m
+        · exact splitGo_onChar ⟨.d6fix, lex, s, b2c, c2b⟩ rfl hb hc n.ce n.be h2 _ _ _ us h1 hus u huu
+        · exact splitGo_onChar ⟨.d6fix, lex, s, b2c, c2b⟩ rfl hb hc n.ce n.be h2 _ _ _ us h1 hus u huu
+        · exact absurd rfl hm
+  intro u hu
+  refine ⟨hon u hu, ?_⟩
+  obtain ⟨h1, h2⟩ := hon u hu
+  intro ob oe hs
+  obtain ⟨hb', he'⟩ := surfaceRange_ok b2c c2b m2o u.bb u.be ob oe hs
+  simp [origIdx, h1, h2, hb', he']
+
+/-- **Clause 2, last sentence, in the ORIGINAL text: the sub-tokens' `begin()..end()` ranges partition
+the parent's.**  Under the hypotheses of `units_exact`, if `begin()`/`end()` are defined on the
+sub-tokens' boundaries and the offset map is monotone (`OrigMono`: C08 `offset map monotone`), the
+original-text ranges of the sub-tokens form a chain: the first begins at the parent's `begin()`, each
+next one where the previous ended, none runs backwards, the last ends at the parent's `end()`. -/
+theorem units_partition_original (cx : Ctx) (w : Nat → Nat) (cs : List Nat) (key : Nat → List Nat) (n : Node) (m : Mode)
+    (m2o : List Nat) (ht : TextOk cx w cs) (hs : SplitsConcat cx w cs key n m) (h0 : numSplits n m ≠ 0)
+    (hm : OrigMono cx.c2b m2o) (o : Nat) (hbeg : origIdx cx.c2b m2o n.cb = .ok o)
+    (hdef : ∀ c, n.cb ≤ c → c ≤ n.ce → ∃ x, origIdx cx.c2b m2o c = .ok x) :
+    ∃ us o', split cx n m = .ok us ∧ origIdx cx.c2b m2o n.ce = .ok o' ∧ OrigLinked cx.c2b m2o us o o' := by
+  obtain ⟨us, hus, _, hcore, _, hl, hf⟩ := units_exact cx w cs key n m ht hs h0
+  have hin : ∀ u ∈ us, n.cb ≤ u.ce ∧ u.ce ≤ n.ce := by
+    obtain ⟨_, h2, _, h4⟩ := linked_cuts_mono us _ _ _ _ hl hf
+    rw [List.pairwise_cons] at h2
+    intro u hu
+    refine ⟨h2.1 _ (List.mem_map.mpr ⟨u, hu, rfl⟩), ?_⟩
+    -- every cut is ≤ the last cut = the parent's end
+    have : ∀ (l : List Node) (c b c' b' : Nat), Linked l c b c' b' → (∀ x ∈ l, x.cb ≤ x.ce ∧ x.bb ≤ x.be) →
+        ∀ x ∈ l, x.ce ≤ c' := by
+      intro l
+      induction l with
+      | nil => intro _ _ _ _ _ _ x hx; simp at hx
+      | cons a r ih =>
+        intro c b c' b' hlk hfw x hx
+        obtain ⟨_, _, hr⟩ := hlk
+        obtain ⟨_, _, _, g4⟩ := linked_cuts_mono r _ _ _ _ hr (fun y hy => hfw y (List.mem_cons_of_mem _ hy))
+        rcases List.mem_cons.mp hx with rfl | hx
+        · exact g4
+        · exact ih _ _ _ _ hr (fun y hy => hfw y (List.mem_cons_of_mem _ hy)) x hx
+    exact this us _ _ _ _ hl hf u hu
+  obtain ⟨o', ho', hlk⟩ := origLinked_of_linked cx.c2b m2o hm us n.cb n.bb n.ce n.be o hl (fun u hu => (hf u hu).1)
+    (fun u hu => hdef u.ce (hin u hu).1 (hin u hu).2) hbeg
+  exact ⟨us, o', hus, ho', hlk⟩
+
+/-- **FINDING (recycled result list): `MorphemeList::lookup` leaves the list's subset stale, `split_into`
+then reads the units with it.**  `lookup(query, subset)` reads the found words with the subset of the
+call but does not store it in the list (`InputPart.subset` keeps what the last `collect_results` put
+there).  Witness: a list that collected the results of a tokenizer after `set_subset(SURFACE)`, then
+`lookup("東京都", all)`: the morpheme found (word 2, A split `東京/都`) has its split loaded, `split_into(A)`
+reads the units with `{SURFACE}` — the reader stops before `head_word_length` — and places `東京` on
+`[0,0)` and `都` on `[0,3)` instead of `[0,2)`, `[2,3)`.  (Model variant `LookupV.cur`, the code as it
+stands; confirmed on the real code by the `lookup` stream of the harness.) -/
+theorem lookup_stale_subset_counterexample :
+    (match lookup .cur [[⟨6, [], []⟩, ⟨3, [], []⟩, ⟨9, [0, 1], []⟩]] [SURFACE] Subset.all 3 9 [2] with
+     | .ok (ns, after) => ns.map (fun n =>
+        match splitInto ⟨.d6fix, [[⟨6, [], []⟩, ⟨3, [], []⟩, ⟨9, [0, 1], []⟩]], after, [0, 0, 0, 1, 1, 1, 2, 2, 2, 3], [0, 3, 6, 9]⟩ .A n with
+        | .ok (_, us) => us.map Node.core | _ => [])
+     | _ => []) = [[(0, 0, 0, 0, 0), (1, 0, 3, 0, 9)]] := by decide
+
+/-- the proposed repair (`lookup` records the subset of the call in the list, variant `LookupV.fix`) on the
+same input: `[0,2)`/bytes `[0,6)` and `[2,3)`/bytes `[6,9)` -/
+theorem lookup_split_repaired :
+    (match lookup .fix [[⟨6, [], []⟩, ⟨3, [], []⟩, ⟨9, [0, 1], []⟩]] [SURFACE] Subset.all 3 9 [2] with
+     | .ok (ns, after) => ns.map (fun n =>
+        match splitInto ⟨.d6fix, [[⟨6, [], []⟩, ⟨3, [], []⟩, ⟨9, [0, 1], []⟩]], after, [0, 0, 0, 1, 1, 1, 2, 2, 2, 3], [0, 3, 6, 9]⟩ .A n with
+        | .ok (_, us) => us.map Node.core | _ => [])
+     | _ => []) = [[(0, 0, 2, 0, 6), (1, 2, 3, 6, 9)]] := by decide
+
+/-- **With the repair, what `lookup` + `split_into` return does not depend on what the list went through
+before** (`ls`, `ls'` = any two earlier subsets of the list): same nodes, and the subset the units will be
+read with is the subset of the call.  For the code as it stands the subset afterwards is the stale one. -/
+theorem lookup_history_free (lex : Lex) (ls ls' sl : Subset) (ce be : Nat) (wids : List Nat) :
+    lookup .fix lex ls sl ce be wids = lookup .fix lex ls' sl ce be wids ∧
+    (∀ ns after, lookup .fix lex ls sl ce be wids = .ok (ns, after) → after = sl) ∧
+    (∀ ns after, lookup .cur lex ls sl ce be wids = .ok (ns, after) → after = ls) := by
+  refine ⟨rfl, ?_, ?_⟩
+  · intro ns after h
+    unfold lookup at h
+    cases hn : lookupNodes lex sl ce be wids <;> simp [hn] at h
+    exact h.2.symm
+  · intro ns after h
+    unfold lookup at h
+    cases hn : lookupNodes lex sl ce be wids <;> simp [hn] at h
+    exact h.2.symm
 
 /-- D6 (C03/C06 territory, witness kept here because the C09 generator reaches it): `東` with the
 A split `東京都/京` — the first unit's key (9 bytes) is longer than the parent (3 bytes), the
@@ -339,5 +625,82 @@ references `U0` (dictionary 1 as written by the builder) and system word 1 -/
 example :
     getWordInfoSubset [[⟨3, [], []⟩, ⟨3, [], []⟩], [⟨3, [], []⟩], [⟨3, [], []⟩, ⟨6, [mkId 1 0, 1], []⟩]]
       (mkId 2 1) Subset.all = .ok ⟨6, [mkId 2 0, 1], []⟩ := by decide
+
+/-- non-vacuity of `subset_irrelevant` / `ondemand_other_subset`: `東京都` (word 2, A split `0/1`) read by a
+tokenizer with subset `{POS_ID, SPLIT_A}` (no HEAD_WORD_LENGTH bit) and by one with all fields: the
+hypotheses hold, both resolve the node (to DIFFERENT word infos: only one holds the B split), it declares two
+units, and both give the sub-tokens
+`[0,2)`/bytes `[0,6)` and `[2,3)`/bytes `[6,9)` -/
+example :
+    let lex : Lex := [[⟨6, [], []⟩, ⟨3, [], []⟩, ⟨9, [0, 1], [0, 1]⟩]]
+    let s : Subset := [POS_ID, SPLIT_A]
+    let r : RawNode := ⟨0, 3, 2, false⟩
+    (∀ x ∈ modeSubset .A, x ∈ s) ∧ (∀ x ∈ modeSubset .A, x ∈ Subset.all) ∧ dicOf r.wid < 16 ∧
+    (∃ n n', resolveNode lex s [0, 3, 6, 9] r = .ok n ∧ resolveNode lex Subset.all [0, 3, 6, 9] r = .ok n' ∧
+      2 ≤ numSplits n .A ∧ n ≠ n') ∧
+    directCore .d6fix lex [0, 0, 0, 1, 1, 1, 2, 2, 2, 3] [0, 3, 6, 9] s .A [r] = .ok [(0, 0, 2, 0, 6), (1, 2, 3, 6, 9)] ∧
+    directCore .d6fix lex [0, 0, 0, 1, 1, 1, 2, 2, 2, 3] [0, 3, 6, 9] Subset.all .A [r] = .ok [(0, 0, 2, 0, 6), (1, 2, 3, 6, 9)] := by
+  refine ⟨by decide, by decide, by decide, ⟨_, _, rfl, rfl, by decide, by decide⟩, by decide, by decide⟩
+
+/-- the reviewer's sequence on `S = {SURFACE}`, mode A: the subsets really differ — `{SURFACE, SPLIT_A}` = 65
+without the HEAD_WORD_LENGTH bit against `{SURFACE, HEAD_WORD_LENGTH, SPLIT_A}` = 67 — while the loaded
+fields are the same list (`set_subset_then_set_mode_eq_new`) -/
+example :
+    toBits (runOps [.new .C, .sub [SURFACE], .md .A] (create .C) []).1.subset = 65 ∧
+    toBits (runOps [.new .A, .sub [SURFACE]] (create .C) []).1.subset = 67 ∧
+    readFields (runOps [.new .C, .sub [SURFACE], .md .A] (create .C) []).1.subset = [0, 1, 2, 4, 6] ∧
+    readFields (runOps [.new .A, .sub [SURFACE]] (create .C) []).1.subset = [0, 1, 2, 4, 6] := by decide
+
+/-- non-vacuity of `boundaries_refine_total` on an ILL-FORMED dictionary (D6: `東` = word 2 with the A split
+`東京都/京`), text `東`: the hypotheses hold and the repaired code returns `[0,1)`, `[1,1)` -/
+example :
+    let lex : Lex := [[⟨9, [], []⟩, ⟨3, [], []⟩, ⟨3, [0, 1], []⟩]]
+    LexClosed lex ∧ TablesRange [0, 0, 0, 1] [0, 3] 3 ∧ RawOk lex [0, 3] 3 ⟨0, 1, 2, false⟩ ∧
+    (match resolvePath lex Subset.all [0, 3] [⟨0, 1, 2, false⟩] with
+      | .ok p => (match splitPath ⟨.d6fix, lex, Subset.all, [0, 0, 0, 1], [0, 3]⟩ .A p with
+        | .ok us => us.map (fun u => (u.cb, u.ce, u.bb, u.be)) | _ => [])
+      | _ => []) = [(0, 1, 0, 3), (1, 1, 3, 3)] := by
+  intro lex
+  refine ⟨?_, ?_, ?_, by decide⟩
+  · intro d l hd hl e he r hr
+    cases d with
+    | succ d => simp [lex] at hl
+    | zero =>
+      simp only [lex, List.getElem?_cons_zero, Option.some.injEq] at hl
+      subst hl
+      simp only [List.mem_cons, List.not_mem_nil, or_false] at he
+      rcases he with rfl | rfl | rfl
+      · simp at hr
+      · simp at hr
+      · simp only [List.append_nil, List.mem_cons, List.not_mem_nil, or_false] at hr
+        rcases hr with rfl | rfl
+        · exact ⟨by decide, _, _, rfl, rfl⟩
+        · exact ⟨by decide, _, _, rfl, rfl⟩
+  · intro i hi
+    have : i = 0 ∨ i = 1 ∨ i = 2 ∨ i = 3 := by omega
+    rcases this with rfl | rfl | rfl | rfl <;> exact ⟨_, rfl, _, rfl⟩
+  · exact ⟨⟨0, rfl⟩, ⟨3, rfl, by decide⟩, Or.inr ⟨by decide, _, _, rfl, rfl⟩⟩
+
+/-- non-vacuity of `resolved_byte_range`, `routes_agree`, `units_partition_original`: text `ab𠮷`
+(widths 1, 1, 4), tables as built, identity offset map: `C2bOk`, `Small`, `OrigMono` hold; the node
+`ab𠮷` resolves to bytes `[0,6)`; the sub-tokens' surfaces are `[0,2)` and `[2,6)` by both routes -/
+example :
+    let w : Nat → Nat := fun c => if c < 128 then 1 else 4
+    let cs : List Nat := [97, 98, 134071]
+    let c2b : List Nat := [0, 1, 2, 6]
+    let b2c : List Nat := mkB2cFrom w 0 cs
+    let m2o : List Nat := [0, 1, 2, 3, 4, 5, 6]
+    let lex : Lex := [[⟨2, [], []⟩, ⟨4, [], []⟩, ⟨6, [0, 1], []⟩]]
+    C2bOk w cs c2b ∧ Small c2b ∧ Small b2c ∧ OrigMono c2b m2o ∧ pre w cs cs.length < 65536 ∧
+    resolveNode lex Subset.all c2b ⟨0, 3, 2, false⟩ = .ok ⟨0, 3, 0, 6, 2, ⟨6, [0, 1], []⟩⟩ ∧
+    (match split ⟨.d6fix, lex, Subset.all, b2c, c2b⟩ ⟨0, 3, 0, 6, 2, ⟨6, [0, 1], []⟩⟩ .A with
+      | .ok us => us.map (fun u => (surfaceRange b2c c2b m2o u.bb u.be, origIdx c2b m2o u.cb, origIdx c2b m2o u.ce))
+      | _ => []) = [(.ok (0, 2), .ok 0, .ok 2), (.ok (2, 6), .ok 2, .ok 6)] := by
+  intro w cs c2b b2c m2o lex
+  refine ⟨?_, by decide, by decide, origMono_of_sorted _ _ (by decide) (by decide), by decide, by decide, by decide⟩
+  intro k hk
+  have : k = 0 ∨ k = 1 ∨ k = 2 ∨ k = 3 := by simp [cs] at hk; omega
+  rcases this with rfl | rfl | rfl | rfl <;> decide
+
 
 end C09
